@@ -209,9 +209,62 @@ func c16Sorted(c editCase) (msg string, shape string) {
 	return "", ""
 }
 
-var tagRE = regexp.MustCompile(`c[0-9]+`)
+// specIsIndirect / specSetIndirect: the documented behaviour of the "// indirect" marker on the
+// list of end-of-line comments of a require line, written independently of rule.go: a line is
+// indirect when its first end-of-line comment is "// indirect" or begins with the field
+// "indirect;"; marking adds "// indirect" or puts "indirect; " in front of the existing
+// text; unmarking removes exactly the leading "indirect;" (and nothing else) or, for a
+// bare marker, the comment.
+func specIsIndirect(suffix []string) bool {
+	if len(suffix) == 0 {
+		return false
+	}
+	f := strings.Fields(strings.TrimPrefix(suffix[0], "//"))
+	return len(f) == 1 && f[0] == "indirect" || len(f) > 1 && f[0] == "indirect;"
+}
 
-// c16Comments: comments of kept lines survive.
+func specSetIndirect(suffix []string, indirect bool) []string {
+	if specIsIndirect(suffix) == indirect {
+		return suffix
+	}
+	if indirect {
+		if len(suffix) == 0 {
+			return []string{"// indirect"}
+		}
+		text := strings.TrimSpace(strings.TrimPrefix(suffix[0], "//"))
+		out := append([]string(nil), suffix...)
+		if text == "" {
+			out[0] = "// indirect"
+		} else {
+			out[0] = "// indirect; " + text
+		}
+		return out
+	}
+	body := strings.TrimPrefix(suffix[0], "//")
+	if strings.TrimSpace(body) == "indirect" {
+		return nil
+	}
+	rest := strings.TrimPrefix(strings.TrimLeft(body, " \t"), "indirect;")
+	out := append([]string(nil), suffix...)
+	out[0] = "//" + rest
+	return out
+}
+
+func sameStrs(a, b []string) bool {
+	if len(a) != len(b) {
+		return false
+	}
+	for i := range a {
+		if a[i] != b[i] {
+			return false
+		}
+	}
+	return true
+}
+
+// c16Comments: comments of kept lines survive - exactly: the leading comments as a contiguous
+// run, the end-of-line comments equal to the original ones with only the indirect marker
+// added / removed as the successive bulk setters request.
 func c16Comments(c editCase) string {
 	set, ok := c16Setter(c)
 	if !ok {
@@ -260,27 +313,32 @@ func c16Comments(c editCase) string {
 			continue
 		}
 		seen[p] = true // the first line for the path is the kept one
-		var tags []string
-		for _, t := range l.suffix {
-			tags = append(tags, tagRE.FindAllString(t, -1)...)
+		want := l.suffix
+		if !c.Work {
+			for _, o := range c.Ops {
+				if !isBulk(o.Name) {
+					continue
+				}
+				for _, q := range o.Reqs {
+					if q.Path == p {
+						want = specSetIndirect(want, q.Indirect)
+					}
+				}
+			}
 		}
 		found := false
+		var got [][]string
 		for _, m := range final {
 			if m.verb != verb || len(m.args) == 0 || unq(m.args[0]) != p {
 				continue
 			}
-			okLine := containsRun(m.before, l.before)
-			for _, tag := range tags {
-				if !strings.Contains(strings.Join(m.suffix, " "), tag) {
-					okLine = false
-				}
-			}
-			if okLine {
+			got = append(got, m.suffix)
+			if containsRun(m.before, l.before) && sameStrs(m.suffix, want) {
 				found = true
 			}
 		}
 		if !found {
-			return fmt.Sprintf("kept %s line for %q lost comments (before %q, suffix %q)\noutput:\n%s", verb, p, l.before, l.suffix, out)
+			return fmt.Sprintf("kept %s line for %q: comments not kept exactly (before %q, end-of-line %q, expected end-of-line %q, got %q)\noutput:\n%s", verb, p, l.before, l.suffix, want, got, out)
 		}
 		for _, t := range l.before {
 			if !strings.Contains(out, t) {
@@ -475,7 +533,7 @@ func c16Draw(c *hx.Ctx) editCase {
 			default:
 				if !work {
 					q.Version = gen.EditVersionFor(r, q.Path)
-					if r.Intn(4) == 0 {
+					if r.Intn(2) == 0 {
 						q.Indirect = !q.Indirect
 					}
 				}
@@ -483,6 +541,18 @@ func c16Draw(c *hx.Ctx) editCase {
 			second.Reqs = append(second.Reqs, q)
 		}
 		ops = append(ops, second, gen.EditOp{Name: cleanup})
+		if !work && r.Intn(2) == 0 {
+			// ... and back: the same request with every marking flipped once more
+			third := gen.EditOp{Name: "SetRequire", Reqs: []gen.ReqArg{}}
+			if r.Intn(2) == 0 {
+				third.Name = "SetRequireSeparateIndirect"
+			}
+			for _, q := range second.Reqs {
+				q.Indirect = !q.Indirect
+				third.Reqs = append(third.Reqs, q)
+			}
+			ops = append(ops, third, gen.EditOp{Name: cleanup})
+		}
 	}
 	return editCase{Work: work, Start: hex.EncodeToString([]byte(s)), Ops: ops}
 }
